@@ -27,7 +27,7 @@ EXPLANATION = (
     "exactly {remove C=C, remove C-O, add C-C single, add C=O} on the atoms that truly play these roles (the harness "
     "knows which carbon carries the oxygen), and the error string must never be returned for a genuine group."
 )
-BOUNDS = ["n <= 8 atoms, three distinct symbolic indices, all 6 orders of the index list; one group per call; dispatch: one functional group out of {enol, hemiketal, phenol, ketone, enol_ether, acetal} reported by the query, the same molecule standardised twice on one instance"]
+BOUNDS = ["n <= 6 atoms on the quick tier, n <= 8 on the thorough tier (dispatch harness: n <= 5 / 6), three distinct symbolic indices, all 6 orders of the index list; one group per call; dispatch: one functional group out of {enol, hemiketal, phenol, ketone, enol_ether, acetal} reported by the query, the same molecule standardised twice on one instance"]
 STUBS = ["FGQuery.get -> one solver-chosen group with solver-chosen atom indices, a fresh list per call; CanonSmiles -> identity on SMILES, raises on an error text", "Chem.MolFromSmiles -> fake molecule with symbolic numbering; Chem.EditableMol -> edit recorder; SanitizeMol -> no-op; MolToSmiles -> marker string"]
 OUTSIDE = ["composition and charge conservation, parsability of the result, idempotence, charged species, several groups on one carbon, hemiketals with an ether oxygen (RDKit bond editing / sanitisation)"]
 ASSUMPTIONS = STUBS
@@ -127,6 +127,8 @@ def h_enol(n: int, c1: int, c2: int, o: int, perm: int) -> bool:
     """
     _ms.Chem = _Chem
     perm = PART.get("perm", perm)
+    if n > PART.get("nmax", 8):
+        return True
     # c2 carries the oxygen: C1=C2-O
     _CUR["mol"] = _Mol(n, {o: "O"})
     _CUR["emol"] = None
@@ -160,6 +162,8 @@ def h_hemiketal(n: int, c: int, oa: int, ob: int, perm: int) -> bool:
     """
     _ms.Chem = _Chem
     perm = PART.get("perm", perm)
+    if n > PART.get("nmax", 8):
+        return True
     mol = _Mol(n, {oa: "O", ob: "O"})
     _CUR["mol"] = mol
     _CUR["emol"] = None
@@ -203,6 +207,8 @@ def h_call(g: int, n: int, a: int, b: int, c: int, perm: int) -> bool:
     """
     _ms.Chem = _Chem
     g = PART.get("g", g)
+    if n > PART.get("nmax", 5):
+        return True
     name = GROUPS[g]
     if name == "hemiketal":
         mol = _Mol(n, {b: "O", c: "O"})
@@ -235,11 +241,12 @@ def h_call(g: int, n: int, a: int, b: int, c: int, perm: int) -> bool:
 
 def plan(tier):
     P = []
+    nmax = 8 if tier == "thorough" else 6
     for perm in range(6):
-        P.append(Part(H + "h_enol", {"perm": perm}, "enol[order %d]" % perm, group="enol", timeout=900))
-        P.append(Part(H + "h_hemiketal", {"perm": perm}, "hemiketal[order %d]" % perm, group="hemiketal", timeout=900))
+        P.append(Part(H + "h_enol", {"perm": perm, "nmax": nmax}, "enol[order %d,n<=%d]" % (perm, nmax), group="enol", timeout=1800))
+        P.append(Part(H + "h_hemiketal", {"perm": perm, "nmax": nmax}, "hemiketal[order %d,n<=%d]" % (perm, nmax), group="hemiketal", timeout=1800))
     for g in range(len(GROUPS)):
-        P.append(Part(H + "h_call", {"g": g}, "call[%s]" % GROUPS[g], group="dispatch", timeout=900))
+        P.append(Part(H + "h_call", {"g": g, "nmax": 6 if tier == "thorough" else 5}, "call[%s]" % GROUPS[g], group="dispatch", timeout=1800))
     P.append(Part(H + "h_call", {"twin": 1}, "call.twin", kind="twin", group="dispatch", timeout=300))
     P.append(Part(H + "h_enol", {"twin": "outside"}, "enol.twin[outside region reachable]", kind="twin", group="enol", timeout=300))
     P.append(Part(H + "h_enol", {"twin": "inside"}, "enol.twin[inside region reachable]", kind="twin", group="enol", timeout=300))
